@@ -84,6 +84,8 @@ type Machine struct {
 
 	// path state
 	pcTerms  []*Term
+	unsent   []*Term
+	chosen   map[*Term]int
 	prefix   []int
 	dpos     int
 	decided  []int
@@ -109,7 +111,8 @@ type Machine struct {
 
 	genCache   map[*ssa.Function]bool
 	allowInit  func(path string) bool
-	funcsUsed  map[string]int // function name -> instructions executed (evidence)
+	funcsUsed  map[*ssa.Function]int // function -> instructions executed (evidence)
+	lits       map[*Term]bool        // branch conditions already on the path condition
 	rtErrType  types.Type
 	branches   int
 	traceInstr bool
@@ -125,6 +128,9 @@ func (m *Machine) unsupported(msg string) {
 
 func (m *Machine) resetPath(prefix []int) {
 	m.pcTerms = nil
+	m.unsent = nil
+	m.chosen = map[*Term]int{}
+	m.lits = map[*Term]bool{}
 	m.prefix = prefix
 	m.dpos = 0
 	m.decided = nil
@@ -159,7 +165,50 @@ func (m *Machine) assume(c *Term) {
 		return
 	}
 	m.pcTerms = append(m.pcTerms, c)
-	m.sol.Assert(c)
+	m.unsent = append(m.unsent, c)
+	if c.op == "not" {
+		m.lits[c.args[0]] = false
+	} else {
+		m.lits[c] = true
+	}
+}
+
+// flush sends pending path-condition conjuncts to the solver (they are only needed when a
+// query is made; paths that never query never talk to the solver).
+func (m *Machine) flush() {
+	for _, c := range m.unsent {
+		m.sol.Assert(c)
+	}
+	m.unsent = m.unsent[:0]
+}
+
+func (m *Machine) check(extra ...*Term) SatResult {
+	m.flush()
+	return m.sol.CheckWith(extra...)
+}
+
+func (m *Machine) model(vars []*Term, extra ...*Term) (SatResult, map[string]uint64) {
+	m.flush()
+	return m.sol.ModelWith(vars, extra...)
+}
+
+// forkFree enumerates the n values of a fresh variable v (constrained only by v < n): every
+// value is feasible by construction, so no solver query is needed.
+func (m *Machine) forkFree(v *Term, n int) int {
+	idx := m.dpos
+	m.dpos++
+	var d int
+	if idx < len(m.prefix) {
+		d = m.prefix[idx]
+	} else {
+		d = 0
+		for alt := n - 1; alt >= 1; alt-- {
+			m.pending = append(m.pending, append(append([]int{}, m.decided...), alt))
+		}
+	}
+	m.decided = append(m.decided, d)
+	m.assume(m.tt.Cmp("=", v, m.tt.BV(v.W, uint64(d))))
+	return d
 }
 
 // branch decides a symbolic condition, forking when both sides are feasible.
@@ -169,6 +218,15 @@ func (m *Machine) branch(c *Term) bool {
 	}
 	if c.IsConst() {
 		return c.cval == 1
+	}
+	// a condition that is literally on the path condition needs neither a query nor a decision
+	if v, ok := m.lits[c]; ok {
+		return v
+	}
+	if c.op == "not" {
+		if v, ok := m.lits[c.args[0]]; ok {
+			return !v
+		}
 	}
 	idx := m.dpos
 	m.dpos++
@@ -183,14 +241,14 @@ func (m *Machine) branch(c *Term) bool {
 		m.assume(m.tt.Not(c))
 		return false
 	}
-	r1 := m.sol.CheckWith(c)
+	r1 := m.check(c)
 	if r1 == Unsat {
 		m.decided = append(m.decided, 0)
 		m.assume(m.tt.Not(c))
 		return false
 	}
 	nc := m.tt.Not(c)
-	r2 := m.sol.CheckWith(nc)
+	r2 := m.check(nc)
 	if r2 == Unsat {
 		m.decided = append(m.decided, 1)
 		m.assume(c)
@@ -609,7 +667,7 @@ func (m *Machine) stepGuard(t *Thread, f *Frame) {
 		return
 	}
 	in := f.block.Instrs[f.pc]
-	m.funcsUsed[f.fn.String()]++
+	m.funcsUsed[f.fn]++
 	m.exec(f, in)
 }
 
